@@ -17,12 +17,15 @@ BOUNDS = ('period p in [0,20] (negative: [-5,-1] in the reject family), body dur
 ASSUMPTIONS = []
 
 
-def fam_tick(E, mode, n, real=False, second=False, enclosing=False, far=False):
+def fam_tick(E, mode, n, real=False, second=False, enclosing=False, far=False, pre=False):
     start = E.num('start', -10**12 if far else -10, 10**12 if far else 10, real=real)
     p = E.num('p', 0, 20, real=real)
     b = [E.num('b%d' % j, 0, 40, real=real) for j in range(n)]
     p2 = E.num('p2', 0, 20, real=real) if second else None
     u = E.num('u', -10, 80, real=real) if enclosing else None
+    # pre: the ticker object is created g before its iteration starts (handed to a delayed
+    # consumer); the grid / the pauses count from the start of the iteration
+    g = E.num('g', 0, 25, real=real) if pre else None
     log = Log()
     S = {}
     maker = interval if mode == 'interval' else delay
@@ -31,7 +34,10 @@ def fam_tick(E, mode, n, real=False, second=False, enclosing=False, far=False):
         log('T', 'begin')
         j = 0
         try:
-            async for value in maker(p):
+            ticks_ = maker(p)
+            if pre:
+                await (time + g)
+            async for value in ticks_:
                 log('T', 'tick', j, value)
                 if j == n:
                     break
@@ -74,6 +80,9 @@ def fam_tick(E, mode, n, real=False, second=False, enclosing=False, far=False):
     E.prove(bad is None, 'run-ends-normally', bad)
     if out.exc is not None:
         return
+    t_run = start             # for the second ticker, which starts with the run
+    if pre:
+        start = start + g     # the first ticker starts iterating g later
     ticks = log.of('T', 'tick')
     ends = log.of('T', 'body-end')
     exc = log.first('T', 'exceeded')
@@ -136,7 +145,7 @@ def fam_tick(E, mode, n, real=False, second=False, enclosing=False, far=False):
     if second:
         t2 = log.of('T2', 'tick')
         for k, tk in enumerate(t2):
-            want = start + (k + 1) * p2
+            want = t_run + (k + 1) * p2
             E.prove(EQ(tk[2], want) and EQ(tk[4], want), 'second-ticker-on-its-own-grid')
         E.prove(len(t2) == 3, 'second-ticker-complete')
 
@@ -171,6 +180,12 @@ FAMILIES = [
            reach=['cut-by-until', 'exceeded'], bounds='interval(p) inside until(time == u)'),
     Family('delay_until', fam_tick, thorough=dict(mode='delay', n=3, enclosing=True),
            bounds='delay(p) inside until(time == u)'),
+    Family('interval_pre', fam_tick, quick=dict(mode='interval', n=2, pre=True),
+           thorough=dict(mode='interval', n=3, pre=True),
+           reach=['exceeded'],
+           bounds='the interval(p) object is created g in [0,25] before its iteration starts'),
+    Family('delay_pre', fam_tick, quick=dict(mode='delay', n=2, pre=True),
+           bounds='the delay(p) object is created g in [0,25] before its iteration starts'),
     Family('two_tickers', fam_tick, quick=dict(mode='interval', n=2, second=True),
            thorough=dict(mode='interval', n=3, second=True),
            bounds='two tickers with independent periods'),
